@@ -68,13 +68,17 @@ def run_replay(binpath, path, extra_args=()):
     e['UBSAN_OPTIONS'] = UBSAN_OPTIONS
     e['TSAN_OPTIONS'] = TSAN_OPTIONS
     extra_args = list(extra_args)
+    try:
+        with open(path) as f:
+            rj = json.load(f)
+    except Exception:
+        rj = {}
     if not extra_args:
-        try:
-            with open(path) as f:
-                for k, v in (json.load(f).get('opts') or {}).items():
-                    extra_args += ['--opt', '%s=%s' % (k, v)]
-        except Exception:
-            pass
+        for k, v in (rj.get('opts') or {}).items():
+            extra_args += ['--opt', '%s=%s' % (k, v)]
+    # the generator configuration depends on which recorded findings were excluded when the case was found
+    if rj.get('exclude'):
+        extra_args += ['--exclude', rj['exclude']]
     r = subprocess.run([binpath, '--replay', path] + list(extra_args), stdout=subprocess.PIPE,
                        stderr=subprocess.PIPE, text=True, env=e, errors='replace')
     m = re.search(r'REPLAY verdict=(\w+) fails=(\d+)/(\d+) sig=(.*)', r.stdout)
@@ -241,7 +245,7 @@ def check(spec, tier, seed, only_replay=None):
                         json.dump(dict(property=pid, bin=stage.bin, stage=stage.name, tier=tier, seed=w['seed'],
                                        sig=sig, detail=fail.get('detail', ''), case=fail.get('case', ''),
                                        bytes_hex=fail.get('bytes_hex', ''),
-                                       opts=stage.opts, repo_hash=B.repo_hash()), f, indent=1)
+                                       opts=stage.opts, exclude=exclude, repo_hash=B.repo_hash()), f, indent=1)
                     if fail.get('bytes_hex', '') == '' and stage.mode == 'enum':
                         verdict, rsig = 'FAIL', sig  # enumerated case: deterministic by construction
                     else:
